@@ -273,7 +273,12 @@ class Trimesh(Geometry3D):
             # being returned so there is no danger of inconsistent dimensions
             self.remove_infinite_values()
             self.merge_vertices(merge_tex=merge_tex, merge_norm=merge_norm)
-            self._cache.clear(exclude={"face_normals", "vertex_normals"})
+            if validate:
+                # `fix_normals` may have reversed the winding of faces
+                # so previously calculated normals can not be kept
+                self._cache.clear()
+            else:
+                self._cache.clear(exclude={"face_normals", "vertex_normals"})
 
         self.metadata["processed"] = True
         return self
